@@ -167,3 +167,36 @@ def reply_data_source(templates):
         body = instantiate(templates, key, nested, extra_holes=holes)
         fns.append("fn %s ( data : DataT , missing_data_err : S , invalid_reply_data_err : S ) -> R { %s Ok ( data ) }" % (mode, body))
     return write_source("reply_data", "impl DataT { %s }" % " ".join(fns))
+
+
+ARM_COMBOS = [("handler_handler", 1, 0), ("handler_pass", 1, 2), ("pass_handler", 3, 0), ("always_always", 2, 1)]
+
+
+def reply_arms_source(templates):
+    """the generated reply dispatch for ONE reply id (contract/communication/reply.rs: emit_match_arms with the success / error arms
+    emit_success_match_arm t1..t3 and emit_error_match_arm t0..t2) in the four combinations the macro produces:
+    `fn <combo>(deps, env, gas_used, payload, result) { match result { <success arm> <error arm> } }`. The handler names become
+    success_handler / error_handler / always_handler, the payload values ONE value `args` (typed payload, decoded by from_json);
+    the data extraction block is left out here (proved per mode in Props/C09T): the handler receives `data` as it arrived."""
+    base = "contract/communication/reply.rs::"
+    suc = base + "ReplyData<'a>::emit_success_match_arm#t%d"
+    err = base + "ReplyData<'a>::emit_error_match_arm#t%d"
+    pay = base + "<Vec<&MsgField<'_>>asPayloadFields>::emit_payload_deserialization#t1"
+    t = dict((x[0], x[-1]) for x in templates)
+    checks = [(suc % 1, "msg_responses) . into ()"), (suc % 2, "vec ! []"), (suc % 3, "set_data"), (err % 0, ", error ,"), (err % 1, ", result ,"),
+              (err % 2, "generic_err (error)")]
+    for key, needle in checks:
+        if key not in t or needle not in t[key]:
+            raise TranslateError("reply dispatch arms: template %s is not the expected one any more" % key)
+    fns = []
+    for name, si, ei in ARM_COMBOS:
+        parts = []
+        for key, handler in ((suc % si, "always_handler" if name == "always_always" else "success_handler"),
+                             (err % ei, "always_handler" if name == "always_always" else "error_handler")):
+            parts.append(instantiate(templates, key, {"payload_deserialization": pay},
+                                     extra_holes={"method_name": handler, "contract_turbofish": "ContractT", "data": "data ,",
+                                                  "data_deserialization": ""},
+                                     rep_subst={"payload_values": "args", "deserialized_payload_names": "args"}))
+        fns.append("fn %s ( deps : D , env : E , gas_used : u64 , payload : B , result : R ) -> Out { match result { %s %s } }" % (
+            name, parts[0], parts[1]))
+    return write_source("reply_arms", "impl ArmsT { %s }" % " ".join(fns))
